@@ -203,7 +203,56 @@ def run_batch(batch):
                                 else:
                                     unk = True
                             obs[line] = (vals, unk)
-            res.append((prefix, i, {k: (sorted(v[0]), v[1]) for k, v in obs.items()}))
+            # symbol-level binding from the P1 spaces: read line -> declaring scope name ("<unresolved>" for negative ids)
+            bind = {}
+            if uid is not None:
+                try:
+                    mids = list(ld.convert_unit_id_to_method_ids(uid) or [])
+                except Exception:
+                    mids = []
+                for mid in mids:
+                    try:
+                        sp1 = ld.get_symbol_state_space_p1(int(mid))
+                        items1 = list(sp1.space if hasattr(sp1, "space") else sp1) if sp1 is not None else []
+                    except Exception:
+                        items1 = []
+                    for it in items1:
+                        if type(it).__name__ != "Symbol" or it.name != nm:
+                            continue
+                        try:
+                            g = ld.get_stmt_gir(int(it.stmt_id))
+                            if g.operation != "call_stmt":
+                                continue
+                            line = int(g.start_row) + 1
+                        except Exception:
+                            continue
+                        sym = int(it.symbol_id)
+                        if sym <= 0:
+                            who = "<unresolved>"
+                        else:
+                            # declaring scope = nearest enclosing method_decl / class_decl in the GIR parent chain
+                            who = "<module>"
+                            cur = sym
+                            hops = 0
+                            try:
+                                while cur and hops < 60:
+                                    hops += 1
+                                    row = ld.get_stmt_gir(int(cur))
+                                    if row is None:
+                                        break
+                                    if row.operation == "method_decl" and int(row.stmt_id) != sym:
+                                        who = row.name if row.name != "%unit_init" else "<module>"
+                                        if row.name == "%class_sinit":
+                                            who = "<class>"
+                                        break
+                                    if row.operation == "class_decl":
+                                        who = "<class>"
+                                        break
+                                    cur = int(row.parent_stmt_id) if row.parent_stmt_id == row.parent_stmt_id else 0
+                            except Exception:
+                                pass
+                        bind.setdefault(line, set()).add(who)
+            res.append((prefix, i, {k: (sorted(v[0]), v[1]) for k, v in obs.items()}, {k: sorted(v) for k, v in bind.items()}))
     return {"fatal": None, "results": res}
 
 
@@ -225,7 +274,8 @@ def main():
         if res.get("__status__") or res.get("fatal"):
             rep.violation("batch-failed", f"{res.get('fatal') or res.get('__status__')} {res.get('traceback', '')[-300:]}", {"sources": [c[2] for c in b][:2]}, size=idx, ident="")
             continue
-        byp = {(p, i): o for p, i, o in res["results"]}
+        byp = {(p, i): o for p, i, o, _b in res["results"]}
+        bindp = {(p, i): b2 for p, i, _o, b2 in res["results"]}
         for i, (shape, roles, src, reads, consts) in enumerate(b):
             stats["programs"] += 1
             feats = {f"shape:{shape}"} | {f"{SHAPES[shape][j][0]}:{r}" for j, r in enumerate(roles) if r != "none"}
@@ -255,6 +305,30 @@ def main():
             if obs != obs_r:
                 rep.feature_violation("rename-changes-binding", feats, f"value sets at the reads of `a`: {obs}; after renaming a -> renamed_a_zz: {obs_r}; program:\n{src}",
                                       {"shape": shape, "roles": list(roles), "source": src}, size=len(src), text=src)
+            # symbol-level judgement (independent of values): the declaration a read is bound to must live in the scope the
+            # scoping rules select; a module-level / builtin name may also stay unresolved
+            binds = bindp.get(("p", i), {})
+            if binds != bindp.get(("q", i), {}):
+                rep.feature_violation("rename-changes-symbol-binding", feats, f"declaring scopes of the reads of `a`: {binds}; after renaming: {bindp.get(('q', i), {})}; "
+                                      f"program:\n{src}", {"shape": shape, "roles": list(roles), "source": src}, size=len(src), text=src)
+            for line, si in sorted(reads.items()):
+                own = owner.get(scope_path(shape, si))
+                if own is None or line not in binds:
+                    continue
+                stats["symbol_bindings"] = stats.get("symbol_bindings", 0) + 1
+                want = own[-1]
+                if SHAPES[shape][[sc[0] for sc in SHAPES[shape]].index(want)][1] == "class" if want != "<module>" else False:
+                    continue
+                ok_names = {want} | ({"<unresolved>"} if want == "<module>" else set())
+                wrong = sorted(set(binds[line]) - ok_names)
+                if wrong == ["<class>"]:
+                    rep.feature_violation("class-attribute-bound-from-function-body", set(), f"read of `a` on line {line} in scope {scope_path(shape, si)} is bound to "
+                                          f"the class attribute; Python's rules skip class scopes and select {own}; program:\n{src}",
+                                          {"shape": shape, "roles": list(roles), "source": src, "line": line}, size=len(src), text=src)
+                elif wrong and not nested_global:
+                    rep.feature_violation("symbol-bound-to-wrong-scope", feats, f"read of `a` on line {line} in scope {scope_path(shape, si)} is bound to a declaration in "
+                                          f"{wrong}; Python's rules select scope {own}; program:\n{src}",
+                                          {"shape": shape, "roles": list(roles), "source": src, "line": line}, size=len(src), text=src)
             for line, si in sorted(reads.items()):
                 if line not in cvals:
                     # CPython never completed the read (NameError / UnboundLocalError): static judgement only - whatever the
@@ -303,7 +377,7 @@ def main():
                 "compiles and contains a read" + (" (quick: trees with >3 scopes only with <=3 active scopes)" if quick else "") +
                 "; distinct by construction; every executed read is one evaluation, every program one rename comparison",
         "samples": samples or [{"shape": "def", "roles": ["A", "R"]}],
-        "exhaustive": True, "reads_agreeing": stats["ok"], "reads_not_executed_by_cpython": stats["unbound_skipped"],
+        "exhaustive": True, "reads_agreeing": stats["ok"], "reads_not_executed_by_cpython": stats["unbound_skipped"], "symbol_level_bindings_judged": stats.get("symbol_bindings", 0),
     }, t.wall(), new, known=known, assumptions=[
         "binding is observed through values (unique constant per assignment) in the P3 state space of the file's unit initialiser",
         "Python only; imports and JavaScript let/const/var scoping are not generated (stated in DESIGN.md)",
